@@ -14,7 +14,7 @@ from vlib import *
 LOCK_REPAIRED = os.environ.get("VERIF_SYMBOLS_LOCK_REPAIRED", "1") == "1"
 EXT_REPAIRED = os.environ.get("VERIF_SYMBOLS_EXT_REPAIRED", "0") == "1"
 
-COQ_FILES = ["Common/Corr.v", "Model/Symbols.v", "Proofs/Symbols.v"]
+COQ_FILES = ["Common/Corr.v", "Model/Symbols.v", "Proofs/Symbols.v", "Proofs/SymbolsSpec.v", "Proofs/SymbolsH.v"]
 HEADER = ("From Coq Require Import List NArith ZArith Bool.\nImport ListNotations.\n"
           "From PV Require Import Common.Corr Model.Symbols.\nOpen Scope N_scope.\n")
 CHK = {(False, False): "sym_chk", (True, False): "sym_chk_lk", (False, True): "sym_chk_ext", (True, True): "sym_chk_fx"}[(LOCK_REPAIRED, EXT_REPAIRED)]
@@ -171,6 +171,8 @@ def coq_res(r):
         return "ARes (Err EExtPkg)"
     if e == "nopkg":
         return "ARes (Err ENoPkg)"
+    if e == "invalid":
+        return "ARes (Err EInvalid)"
     return None
 
 
@@ -191,6 +193,79 @@ def coq_looks(unames, uexts, look):
     l = "[" + "; ".join("(%s, %s)" % (coq_name(n), coq_owner(o)) for n, o in zip(unames, look["names"])) + "]"
     le = "[" + "; ".join("(%s, %s, %s)" % (coq_name(x["msg"]), coq_Z(x["tag"]), coq_owner(o)) for x, o in zip(uexts, look["exts"])) + "]"
     return l, le
+
+
+def coq_err(r):
+    e = r["e"]
+    if e == "sym":
+        return "ESym %s %s" % (coq_name(r["name"]), coq_bool(r["aspkg"]))
+    if e == "ext":
+        return "EExt %s %s" % (coq_name(r["msg"]), coq_Z(r["tag"]))
+    return {"extpkg": "EExtPkg", "nopkg": "ENoPkg", "invalid": "EInvalid"}.get(e)
+
+
+def coq_resH(r):
+    if r["e"] == "look":
+        return "AHLook %s" % coq_owner(r["owner"])
+    rep = [coq_err(x) for x in r["reported"]]
+    ret = "Ok" if r["e"] == "ok" else coq_err(r)
+    if ret is None or None in rep:
+        return None
+    return "AHRes [%s] %s" % ("; ".join("(%s)" % x for x in rep), ret if ret == "Ok" else "(Err (%s))" % ret)
+
+
+def coq_seqH_case(inp, out):
+    ids = [f["id"] for f in inp["files"]]
+    obs = []
+    for st in out["steps"]:
+        r = coq_resH(st["res"])
+        if r is None:
+            return None
+        l, le = coq_looks(inp["unames"], inp["uexts"], st["look"])
+        obs.append("mkStepObsH (%s) %s %s %s" % (r, coq_dump(st["dump"]), l, le))
+    mode = "HCollect" if inp.get("handler") == "collect" else "HAbort"
+    return "(%s CSeqH %s [%s] [%s])" % (coq_files_let(out["walks"], ids), mode, "; ".join(coq_op(o) for o in inp["ops"]), "; ".join(obs))
+
+
+def coq_partH_case(inp, walks, fs, anyfail, look):
+    ids = [f["id"] for f in inp["files"]]
+    l, le = coq_looks(inp["unames"], inp["uexts"], look)
+    mode = "HCollect" if inp.get("handler") == "collect" else "HAbort"
+    return "(%s CPartH %s [%s] %s %s %s)" % (coq_files_let(walks, ids), mode, "; ".join("f%d" % i for i in fs), coq_bool(anyfail), l, le)
+
+
+def op_failed(r):
+    return r["e"] != "look" and (r["e"] != "ok" or bool(r.get("reported")))
+
+
+def render_proto(f):
+    lines = ['syntax = "proto2";']
+    if f["pkg"]:
+        lines.append("package %s;" % f["pkg"])
+    for d in f["deps"]:
+        lines.append('import "f%d.proto";' % d)
+    for m in f["msgs"]:
+        lines.append("message %s {" % m["name"])
+        lines.append("  extensions 100 to 999;")
+        for k, fn in enumerate(m["fields"]):
+            lines.append("  optional int32 %s = %d;" % (fn, k + 1))
+        for n in m["nested"]:
+            lines.append("  message %s { extensions 100 to 999; }" % n)
+        lines.append("}")
+    for e in f["enums"]:
+        lines.append("enum %s { %s }" % (e["name"], " ".join("%s = %d;" % (v, k) for k, v in enumerate(e["values"]))))
+    for x in f["exts"]:
+        lines.append("extend .%s { optional int32 %s = %d; }" % (x["extendee"], x["name"], x["tag"]))
+    return "\n".join(lines) + "\n"
+
+
+def with_variant(inp, handler, kind):
+    """The same case under the given handler kind (strict / collect) and import path (desc = protodesc
+    descriptors, importFile; result = compiled linker.Result values, importResult)."""
+    out = dict(inp, handler=handler, kind=kind)
+    if kind == "result":
+        out["sources"] = {"f%d.proto" % f["id"]: render_proto(f) for f in inp["files"]}
+    return out
 
 
 def coq_seq_case(inp, out):
